@@ -30,12 +30,9 @@ def build(bin, features=None, package="rtmock"):
     return ok, (dst if ok else None), log
 
 
-def run(exe, lines, timeout=1200, env=None):
-    """Line filter that survives process aborts (a Rust panic inside an `extern "C"` frame aborts)."""
-    try:
-        return vf.run_filter([exe], lines, timeout=timeout, env=env)
-    except RuntimeError:
-        pass
+def _run_shard(exe, lines, timeout, env):
+    """One process at a time over `lines`; a scenario that kills the process is reported as ABORT:<stderr tail>
+    and the run resumes with the next line."""
     out = []
     i = 0
     while i < len(lines):
@@ -47,11 +44,26 @@ def run(exe, lines, timeout=1200, env=None):
         out += got
         i += len(got)
         if i < len(lines):
-            # the process died while running scenario i
             last = [l for l in se.strip().split("\n") if l.strip()]
             out.append("ABORT:" + (last[-1].strip().replace(" ", "_") if last else "rc=%s" % rc))
             i += 1
     return out
+
+
+def run(exe, lines, timeout=1200, env=None, shards=None):
+    """Line filter, sharded over the cores, that survives process aborts (a Rust panic inside an
+    `extern "C"` frame aborts the process)."""
+    import concurrent.futures
+    if not lines:
+        return []
+    shards = shards or min(vf.NCPU, max(1, len(lines) // 64))
+    chunks = [lines[i::shards] for i in range(shards)]
+    with concurrent.futures.ThreadPoolExecutor(max_workers=shards) as ex:
+        outs = list(ex.map(lambda c: _run_shard(exe, c, timeout, env), chunks))
+    res = [None] * len(lines)
+    for i, o in enumerate(outs):
+        res[i::shards] = o
+    return res
 
 
 # ------------------------------------------------------------------------------------------------
